@@ -357,6 +357,10 @@ impl Mon {
     pub fn new(prop: &'static str, dispatch: Dispatch) -> Mon {
         install_panic_hook();
         let cfg = Config::from_args();
+        if cfg.extra.contains_key("noop") {
+            // build warm-up: do nothing at all
+            std::process::exit(0);
+        }
         let rng = crate::rng::Rng::new(cfg.seed, 0);
         let keep_rng = crate::rng::Rng::new(cfg.seed ^ 0x6b65_6570, cfg.shard + 1);
         let journal = cfg.journal.as_ref().map(|p| {
@@ -426,6 +430,7 @@ impl Mon {
         if self.cfg.light <= 0.0 {
             return true;
         }
+        self.light_deadline();
         (self.keep_rng.u64() >> 11) as f64 / (1u64 << 53) as f64 <= self.cfg.light
     }
 
@@ -493,6 +498,9 @@ impl Mon {
     /// (decided by the case hash, so equal cases always land in one shard).
     pub fn case(&mut self, op: &str, bits: usize, args: Vec<Arg>) {
         self.generated += 1;
+        if self.cfg.light > 0.0 && self.generated % 16 == 0 {
+            self.light_deadline();
+        }
         if !self.width_enabled(bits) || !self.op_enabled(op) {
             return;
         }
@@ -511,6 +519,9 @@ impl Mon {
     /// workloads whose later cases depend on earlier results).
     pub fn case_always(&mut self, op: &str, bits: usize, args: Vec<Arg>) {
         self.generated += 1;
+        if self.cfg.light > 0.0 && self.generated % 16 == 0 {
+            self.light_deadline();
+        }
         let h = case_hash(op, bits, &args);
         self.run_case(op, bits, args, h);
     }
@@ -776,6 +787,21 @@ impl Mon {
     }
 
     pub fn finish(mut self) {
+        self.write_report();
+    }
+
+    /// Light lanes (Miri, memcheck) must end close to their time budget even
+    /// when generation itself is slow: past 1.3x the budget the report is
+    /// written and the process exits.
+    fn light_deadline(&mut self) {
+        if self.cfg.light > 0.0 && self.start.elapsed().as_secs_f64() > self.cfg.max_seconds * 1.3 {
+            self.time_up_flag = true;
+            self.write_report();
+            std::process::exit(0);
+        }
+    }
+
+    fn write_report(&mut self) {
         self.flush_stat();
         let wall = self.start.elapsed().as_secs_f64();
         let mut by_op = Map::new();
